@@ -210,3 +210,25 @@ impl<V> DotBuilder for PathAndQueryMatcher<V> {
         Some(node_name)
     }
 }
+
+#[cfg(feature = "verif")]
+mod verif_hooks {
+    use super::PathAndQueryMatcher;
+    use crate::router::verif_hooks::VerifRouterDump;
+
+    impl<T> PathAndQueryMatcher<T> {
+        pub(crate) fn verif_walk(&self, path: &str, dump: &mut VerifRouterDump) {
+            for (static_path, routes) in &self.static_rules {
+                for route in routes.values() {
+                    dump.storage.push((format!("{path}/static={static_path}"), route.id().to_string()));
+                }
+            }
+
+            dump.trees.push((format!("{path}/path~"), self.regex_tree_rule.verif_snapshot()));
+
+            for (pattern, _, route) in self.regex_tree_rule.verif_entries() {
+                dump.storage.push((format!("{path}/path~{pattern}"), route.id().to_string()));
+            }
+        }
+    }
+}
